@@ -687,6 +687,21 @@ pub fn generate_commit_unit(rng: &mut Rng, p: &GenParams, kind: SectionKind, sec
     let mut g = Gen::new(rng);
     g.forced_name = name;
     g.next_token = first_token;
+    // one unit in four begins with a commit that has no patch (a merge commit, an empty commit, a
+    // `--stat` only entry): non-diff material between the previous file section and this one
+    if g.rng.chance(1, 4) {
+        g.commit_preamble();
+        if g.rng.chance(1, 2) {
+            g.push(" docs/guide.md | 2 +-".into(), LineKind::Meta, None, usize::MAX, 0);
+            g.push(" 1 file changed, 1 insertion(+), 1 deletion(-)".into(), LineKind::Meta, None, usize::MAX, 0);
+            g.push("".into(), LineKind::Meta, None, usize::MAX, 0);
+        }
+        if g.rng.chance(1, 3) {
+            g.push("Notes:".into(), LineKind::Meta, None, usize::MAX, 0);
+            g.push("    reviewed; see ticket 4711".into(), LineKind::Meta, None, usize::MAX, 0);
+            g.push("".into(), LineKind::Meta, None, usize::MAX, 0);
+        }
+    }
     g.commit_preamble();
     if with_stat {
         let n = g.fname(section);
